@@ -84,6 +84,18 @@ class Tracer:
     ffs = top.get_all_update_ff()
     for b in top._dag.final_upblks:
       self.codes[b.__code__] = "ff" if b in ffs else "comb"
+    # generated net-propagation blocks have no host in their frame; two of them may carry the same name (two nets
+    # driven by equal constants): keep them apart by a per-code-object suffix
+    user = top.get_all_update_blocks()
+    byname = {}
+    for b in top._dag.final_upblks:
+      if b not in user:
+        byname.setdefault(b.__code__.co_name, []).append(b.__code__)
+    self.suffix = {}
+    for nm_, cs in byname.items():
+      if len(set(cs)) > 1:
+        for k_, c in enumerate(sorted(set(cs), key=lambda c: (c.co_filename, c.co_firstlineno, id(c)))):
+          self.suffix[c] = f"#{k_}"
     if not _tool_ready[0]:
       MON.use_tool_id(TOOL, "verif-simmon")
       _tool_ready[0] = True
@@ -96,7 +108,7 @@ class Tracer:
     if kind is None:
       return
     s = sys._getframe(1).f_locals.get("s")
-    key = (repr(s) if s is not None and hasattr(s, "_dsl") else "", code.co_name, kind)
+    key = (repr(s) if s is not None and hasattr(s, "_dsl") else "", code.co_name + self.suffix.get(code, ""), kind)
     self.events.append(key)
     if self.limit is not None:
       n = self.counts[key] = self.counts.get(key, 0) + 1
